@@ -168,6 +168,32 @@ def check_L5(report, facts, rule):
     report.count('label table hand-overs', n)
 
 
+def param_holds_labels(facts, fname, pname):
+    """Does parameter `pname` of pass `fname` receive the label table (as opposed to the constants table) from assemble?
+    True / False, or None when the pass is not called with that parameter on any evaluated path."""
+    from .layout import pass_pipeline, item_passes
+    from .passorder import origins
+    f = facts.funcs.get(fname)
+    if f is None:
+        return None
+    params = [a.arg for a in f.args.args]
+    if pname not in params:
+        return None
+    idx = params.index(pname)
+    verdict = None
+    for value, calls in pass_pipeline(facts).all_paths():
+        for nm, c, its in item_passes(facts, calls):
+            if c.name != fname and nm != fname:
+                continue
+            v = c.args[idx] if idx < len(c.args) else None
+            if v is None:
+                continue
+            leaves = origins(v)
+            hit = any(l == ('param', 'labels') for l in leaves)
+            verdict = bool(verdict) or hit
+    return verdict
+
+
 def caller_table(v, pname):
     """The abstract value is the caller's argument `pname`, replaced by an object created in this call exactly when it is None."""
     if v == ('param', pname):
